@@ -461,6 +461,28 @@ class Builder:
             return f, t
         if isinstance(test, ast.Constant):
             return (frontier, []) if test.value else ([], frontier)
+        # any(<generator>) / all(<generator>): the short-circuit loop it stands for (a list comprehension evaluates every element
+        # first -- different side effects -- and is left alone)
+        if isinstance(test, ast.Call) and isinstance(test.func, ast.Name) and test.func.id in ('any', 'all') and len(test.args) == 1 \
+                and not test.keywords and isinstance(test.args[0], ast.GeneratorExp) and len(test.args[0].generators) == 1 \
+                and isinstance(test.args[0].generators[0].target, (ast.Name, ast.Tuple)):
+            comp = test.args[0]
+            gen = comp.generators[0]
+            loop = ast.copy_location(ast.For(target=gen.target, iter=gen.iter, body=[ast.copy_location(ast.Expr(comp.elt), test)], orelse=[]), test)
+            ast.fix_missing_locations(loop)
+            frontier = self._expand_calls(gen.iter, frontier, frame, ctx)
+            head = g.add('for', loop, frame, 'any/all')
+            g.connect(frontier, head)
+            cur = [(head, 'T')]
+            for c in gen.ifs:
+                cur, f = self._cond(c, cur, frame, ctx)
+                g.connect(f, head)
+            t, f = self._cond(comp.elt, cur, frame, ctx)
+            if test.func.id == 'any':
+                g.connect(f, head)
+                return t, [(head, 'F')]
+            g.connect(t, head)
+            return [(head, 'F')], f
         # a bare inlinable call used as a boolean: route callee returns by truth value
         if isinstance(test, ast.Call):
             tgt = self._resolve_call(test, frame)
